@@ -193,11 +193,14 @@ func main() {
 		return true
 	})
 	ws := g.Src(g.Func("WriteFile").Body)
-	tempThenRename := strings.Contains(ws, "os.CreateTemp(dir, file)") && strings.Contains(ws, "os.Chmod(tempFile.Name(), mode)") &&
-		strings.Contains(ws, "return renameFile(tempFile.Name(), to)")
+	// temp file NEXT TO the destination (`dir, file := filepath.Split(to)` ... `os.CreateTemp(dir, file)`), chmod, rename:
+	// only then is rename(2) on one file system and never falls back to renameFile's in-place copy
+	tempThenRename := strings.Contains(ws, ":= filepath.Split(to)") && strings.Contains(ws, "os.CreateTemp(dir, file)") &&
+		strings.Contains(ws, "os.Chmod(tempFile.Name(), mode)") && strings.Contains(ws, "return renameFile(tempFile.Name(), to)")
+	tempElsewhere := !tempThenRename && strings.Contains(ws, "os.CreateTemp(") && strings.Contains(ws, "return renameFile(tempFile.Name(), to)")
 	writesInPlace := strings.Contains(ws, "os.Create(to)") || strings.Contains(ws, "os.OpenFile(to")
-	if !tempThenRename && !writesInPlace {
-		xlib.Unreadable("WriteFile: neither the temp-file-and-rename shape nor an in-place os.Create/OpenFile(to)")
+	if !tempThenRename && !writesInPlace && !tempElsewhere {
+		xlib.Unreadable("WriteFile: neither temp-file-next-to-destination + rename, nor a temp file elsewhere, nor an in-place os.Create/OpenFile(to)")
 	}
 	cfs := g.Src(g.Func("CopyFile").Body)
 	copyOpens := strings.Contains(cfs, "os.Open(from)") && strings.Contains(cfs, "return WriteFile(fromFile, to, mode)")
